@@ -615,3 +615,6 @@ def check_one(case):
     else:
         {"lists": check_lists, "ext": check_ext, "csv": check_csv}[k](case, wb, out, viol)
     return {"outcome": "ok", "nt": not viol, "viol": viol, "tr": ntr}
+
+# as-built additions of the seventh wave (reported with the bound in the evidence)
+BOUND = {k: v + "; seventh wave: " + 'a from-repeat select inside the repeat it lists with logic cells naming the same question; search() on a list whose last choice has no label, also with translated questions' for k, v in BOUND.items()}
